@@ -48,6 +48,9 @@ def obligations(tier):
            ["ceos_alos2.sar_leader.structure:sar_leader_record", "ceos_alos2.volume_directory.structure:volume_directory_record"],
            bounds="forall admissible structure parameters (unbounded)", call="props.c18:ob_short"),
     ]
+    obs.append(Ob("C18.e2e", "E", "witness replay through open_alos2: image cut at every record boundary and +-1 byte (4 rpc values), truncated leader / volume directory, every single "
+                  "missing file: always an exception, OSError for missing files, never a tree", ["ceos_alos2.xarray:open_alos2"], bounds="concrete replays (not the deciding step)",
+                  call="props.e2e:ob_failstop", wall_timeout=900))
     return obs
 
 
